@@ -213,11 +213,22 @@ func checkC01(run *rt.Run, w *World, o *SendObs, ops []Op, stop bool, stopAt tim
 	}
 	full := !o.Cancelled
 	ok, why := decompose(o.Expected, o.Entries, full)
-	if ok {
-		// the first node of every traversal is promised an empty (non-nil) format table
+	{
+		// the first node of every traversal is promised an empty (non-nil) format table. Which invocations
+		// are "first" is read off the event pointers, not off the decomposition (ambiguous for cancelled
+		// Sends): the earliest invocation that receives a given event object is the first node to see it.
+		first := map[*eventlogger.Event]*Entry{}
 		for _, e := range o.Entries {
-			if e.stepIdx == 0 && e.Prov == o.SendID && (e.FmtNil || e.FmtLen != 0) {
-				run.Violation("history-pattern:format-table", fmt.Sprintf("the first node of a pipeline received an event whose format table is nil=%v / holds %d entries", e.FmtNil, e.FmtLen), wit())
+			if e.Prov != o.SendID || e.Ev == nil {
+				continue
+			}
+			if f, seen := first[e.Ev]; !seen || e.Call < f.Call {
+				first[e.Ev] = e
+			}
+		}
+		for _, e := range first {
+			if e.FmtNil || e.FmtLen != 0 {
+				run.Violation("history-pattern:format-table", fmt.Sprintf("the first node to receive the event of a pipeline saw a format table that is nil=%v / holds %d entries", e.FmtNil, e.FmtLen), wit())
 				break
 			}
 		}
